@@ -1,5 +1,5 @@
 SPECIFICATION GSpec
-CONSTANTS MaxIn = 2  MaxOps = 8  MidRunChunks = FALSE  TinyInput = FALSE  Bugs = {}
+CONSTANTS MaxIn = 2  MaxOps = 8  MidRunChunks = FALSE  TinyInput = FALSE  Bugs = {}  Profile = "all"
  Encs = {"stream", "mt", "raw", "block"}  Grants = {"big"}  Checks = {"crc", "none"}  BSizes = {0, 1, 2}
 ACTION_CONSTRAINT Emit
 CHECK_DEADLOCK FALSE
